@@ -122,9 +122,28 @@ def setTensorWith (plc : Mod → Name → Tn → Bool → Mod) (md : Mod) (name 
       | some out => .ok (plc { md2 with plain := md2.plain.pop name } name t false, out)
       | none => .error (.key, md2)
 
-/-- the native branch (`type(module).__setattr__ is nn.Module.__setattr__`): `_set_tensor_dict` -/
-def setTensorNative := setTensorWith place
+/-- the pinned `_set_tensor_dict` (pop from `_parameters`, then `_buffers`, then `__dict__`; `isinstance(tensor, Parameter)`
+tested before `was_buffer`) -/
 def setTensorOld := setTensorWith placeOld
+
+/-- the native branch (`type(module).__setattr__ is nn.Module.__setattr__`): `_set_tensor_dict` as repaired — an entry
+that stays in the dict it was found in is *replaced in place* (`_parameters[name] = tensor`, `_buffers[name] = tensor`), so
+the order of `module._parameters` / `_buffers` (the order of `parameters()`, `state_dict()`, optimizer groups) survives a
+swap of a subset of the entries; a non-Parameter aimed at a `_parameters` slot moves to `__dict__`, a Parameter aimed at a
+plain attribute moves to `_parameters`; `None` entries are no longer popped on the way to a KeyError. -/
+def setTensorNative (md : Mod) (name : Name) (t : Tn) : Except (Err × Mod) (Mod × Tn) :=
+  match (md.params.get? name).join with
+  | some out =>
+    if t.isParam then
+      .ok ({ md with params := md.params.set name (some t), preHooks := md.preHooks + (if t.lazy then 1 else 0) }, out)
+    else .ok ({ md with params := md.params.pop name, plain := md.plain.set name t }, out)
+  | none =>
+    match (md.buffers.get? name).join with
+    | some out => .ok ({ md with buffers := md.buffers.set name (some t) }, out)
+    | none =>
+      match md.plain.get? name with
+      | some out => .ok (place { md with plain := md.plain.pop name } name t false, out)
+      | none => .error (.key, md)
 
 /-- mirrors the other branch of tensordict/_td.py:TensorDict._to_module (a module class that overrides
 `__setattr__`; inplace=False, not under dynamo), repaired: a non-Parameter aimed at a `_parameters` slot is
